@@ -221,7 +221,7 @@ def pmap(fn, items, workers=16):
         return list(ex.map(fn, items))
 
 
-def run_seq_driver(cmd, seqs, timeout=600, env=None, max_restarts=8):
+def run_seq_driver(cmd, seqs, timeout=600, env=None, max_restarts=8, own_reset=False):
     """Drive a line-protocol executor over many independent sequences in one process.
     seqs: list of lists of command lines (the leading "R" is added here).  The driver must print
     one line {"reset":...} for every R.  Returns a list (one entry per sequence) of
@@ -233,7 +233,8 @@ def run_seq_driver(cmd, seqs, timeout=600, env=None, max_restarts=8):
     while first < len(seqs):
         text = []
         for s in seqs[first:]:
-            text.append("R")
+            if not own_reset:
+                text.append("R")     # with own_reset the sequence starts with its own "R ..." line
             text += s
         rc, so, se, to = run_driver(cmd, "\n".join(text) + "\n", timeout=timeout, env=env)
         segs = []
